@@ -308,7 +308,18 @@ class Runner:
                 tl.defaults.quantize = self.beats(int(w[1]))
                 tl.defaults.delay = self.beats(int(w[2]))
             elif w[0] == "swd":
-                tl.stop_when_done = w[1] == "1"
+                # two public routes to the same setting: the attribute, and the documented keyword of run() — driven here with
+                # a clock that delivers no tick, so that run() applies the setting and returns (the ticks follow through tick())
+                self.swd_ops = getattr(self, "swd_ops", 0) + 1
+                if self.swd_ops % 2 == 0:
+                    cs = tl.clock_source
+                    cs.run = lambda: None
+                    try:
+                        tl.run(stop_when_done=(w[1] == "1"))
+                    finally:
+                        del cs.run
+                else:
+                    tl.stop_when_done = w[1] == "1"
             elif w[0] == "latency":
                 # tempo 120: 1 s = 2 beats
                 self.dev.added_latency_seconds = self.beats(int(w[1])) / 2.0
